@@ -42,14 +42,18 @@ func runItem(e *vh.CborEncoder, it Sx) error {
 		mes := []*vh.CborMapEntryEncoder{}
 		for _, ent := range a.L {
 			ent := ent
-			mes = append(mes, vh.CborGenerateMapEntry(func(k *vh.CborEncoder, v *vh.CborEncoder) {
+			me := vh.CborGenerateMapEntry(func(k *vh.CborEncoder, v *vh.CborEncoder) {
 				if err := runItems(k, ent.L[0].L); err != nil && inner == nil {
 					inner = err
 				}
 				if err := runItems(v, ent.L[1].L); err != nil && inner == nil {
 					inner = err
 				}
-			}))
+			})
+			mes = append(mes, me)
+			if len(ent.L) > 2 { // the SAME entry object passed twice
+				mes = append(mes, me)
+			}
 		}
 		if inner != nil {
 			return inner
@@ -111,7 +115,63 @@ func opCborDec(args []Sx) Sx {
 	return L(Sym("ok"), L(vals...), Zi(int64(rd.Len())))
 }
 
+// ---- cbor_dec_segments: ONE decoder over a reader that is fed segment by segment ----
+
+type segReader struct{ cur []byte }
+
+func (s *segReader) Read(p []byte) (int, error) {
+	if len(s.cur) == 0 {
+		return 0, io.EOF
+	}
+	n := copy(p, s.cur)
+	s.cur = s.cur[n:]
+	return n, nil
+}
+
+func decodeKind(d *vh.CborDecoder, k string) (Sx, error) {
+	switch k {
+	case "uint":
+		n, err := d.DecodeUint()
+		return Zu(n), err
+	case "arr":
+		n, err := d.DecodeArrayHeader()
+		return Zu(n), err
+	case "map":
+		n, err := d.DecodeMapHeader()
+		return Zu(n), err
+	case "bytes":
+		b, err := d.DecodeByteString()
+		return B(b), err
+	case "text":
+		s, err := d.DecodeTextString()
+		return B([]byte(s)), err
+	}
+	panic("bad kind")
+}
+
+func opCborDecSegments(args []Sx) Sx {
+	sr := &segReader{}
+	d := vh.CborNewDecoder(sr)
+	out := []Sx{}
+	for _, seg := range args {
+		sr.cur = append([]byte{}, seg.L[1].B...)
+		res := []Sx{}
+		for _, k := range seg.L[0].L {
+			v, err := decodeKind(d, string(k.B))
+			if err != nil {
+				res = append(res, L(Sym("err")))
+				break
+			}
+			res = append(res, L(Sym("ok"), v))
+		}
+		sr.cur = nil // drain what a failed call left behind
+		out = append(out, L(res...))
+	}
+	return L(out...)
+}
+
 func init() {
+	regOp("cbor_dec_segments", opCborDecSegments)
 	regOp("cbor_prog", opCborProg)
 	regOp("cbor_dec", opCborDec)
 }
